@@ -94,6 +94,7 @@ class Sched:
 
 
 S = None          # the scheduler of the running session
+POST_POINTS = False   # extra scheduling points after queue puts (thorough tier)
 LISTEN = None
 
 
@@ -108,6 +109,7 @@ class CEvent:
     def set(self):
         S.point(('ev.set', self.id))
         self.flag = True
+        S.point(('ev.set.done', self.id))     # the caller may be descheduled right after the event is set
 
     def clear(self):
         S.point(('ev.clear', self.id))
@@ -132,6 +134,8 @@ class CQueue:
     def put(self, x, block=True, timeout=None):
         S.point(('q.put', self.id, str(x)))
         self.q.append(x)
+        if POST_POINTS:
+            S.point(('q.put.done', self.id))
 
     def get(self, block=True, timeout=None):
         S.point(('q.get', self.id), lambda: len(self.q) > 0)
@@ -139,20 +143,44 @@ class CQueue:
 
 
 class CBarrier:
+    """threading.Barrier with its documented semantics, including reset() / abort() breaking the threads that wait."""
+
     def __init__(self, parties, action=None, timeout=None):
         self.parties = parties
         self.count = 0
         self.gen = 0
+        self.broken_gens = set()
+        self.broken = False
 
     def wait(self, timeout=None):
         S.point(('bar.arrive',))
+        if self.broken:
+            raise threading.BrokenBarrierError
         g = self.gen
         self.count += 1
         if self.count == self.parties:
             self.count = 0
             self.gen += 1
-        S.point(('bar.leave',), lambda: self.gen != g)
+        S.point(('bar.leave',), lambda: self.gen != g or g in self.broken_gens or self.broken)
+        if g in self.broken_gens or (self.broken and self.gen == g):
+            raise threading.BrokenBarrierError
         return 0
+
+    def reset(self):
+        S.point(('bar.reset',))
+        if self.count > 0:                 # threads are waiting: they receive BrokenBarrierError
+            self.broken_gens.add(self.gen)
+            self.gen += 1
+            self.count = 0
+        self.broken = False
+
+    def abort(self):
+        S.point(('bar.abort',))
+        self.broken = True
+
+    @property
+    def n_waiting(self):
+        return self.count
 
 
 class Pipe:
